@@ -29,9 +29,10 @@ from bounded.C02 import Fail, _fw, _impl_name, _site, crafted_inputs, decode_inp
 
 BOUNDS = (
     "Types: the 69 implementation modules of the C02 model (OPT has no text parser: text totality only).  Values: "
-    "the C02 one-factor boundary enumeration with ALL 256 single octets in every character-string, quoted, TXT and "
-    "name-label position in both tiers (opaque hex/base64 fields and 8-bit integers: 34/50 representatives in "
-    "quick, all 256 in thorough), then field pairs and seeded random records (quick 15, thorough 600 per type).  "
+    "the C02 one-factor boundary enumeration with ALL 256 single octets in every character-string, quoted and TXT "
+    "position in both tiers (quick: types sharing both text methods with an earlier type, name labels outside 11 "
+    "designated types + gateway/server-list names, opaque hex/base64 fields and 8-bit integers use 34/50 "
+    "representatives; thorough: all 256 everywhere), then field pairs and seeded random records (quick 10, thorough 600 per type).  "
     "Each value is rendered with the lossless styles {default, chunk sizes 0/1/3/1000 for hex and base64, TAB "
     "separators, txt_is_utf8} (truncate_crypto, omit_final_dot and idna_codec discard or reinterpret information and "
     "are excluded), re-parsed and compared (== and canonical digest), and additionally parsed from an independent "
@@ -45,7 +46,7 @@ BOUNDS = (
     "tokenizer + unescape_to_bytes on all 65 536 octet pairs (quick: all singles, 8 192 seeded pairs), "
     "_escapify_unicode on 2 000 code points, hex/base64 chunking for lengths 0..70 x 9 chunk sizes, IPv4 every octet "
     "position x 256 and IPv6 all 256 zero-run layouts x 3 fillings + seeded against the `ipaddress` module, all "
-    "65 536 type mnemonics.  The `cryptography` package is absent; nothing in this property needs a private key."
+    "65 536 type mnemonics (quick: 0..1099, every 13th, and the private-use edge).  The `cryptography` package is absent; nothing in this property needs a private key."
 )
 
 
@@ -146,7 +147,7 @@ def _name_fits(spec, vals):
 # --------------------------------------------------------------------------- value clauses
 
 
-def check_text_value(spec, vals, rdclass, style_names, origins, alt=True):
+def check_text_value(spec, vals, rdclass, style_names, origins, alt=True, generic=True):
     """returns (status, [Fail])"""
     fails = []
     try:
@@ -172,6 +173,7 @@ def check_text_value(spec, vals, rdclass, style_names, origins, alt=True):
             t = rd.to_text(style=st)
         except Exception as e:
             add(Fail("C05.to_text_total", "to_text(%s) raised %s: %s" % (sn, type(e).__name__, e), impl=eimpl, kind="to_text-raises", exc=type(e).__name__, site=_site(e)))
+            own_ok = False
             continue
         if not wf:
             continue
@@ -206,7 +208,7 @@ def check_text_value(spec, vals, rdclass, style_names, origins, alt=True):
                         fails.append(Fail("C05.rfc_spelling_parses_equal", "record parsed from RFC spelling does not survive its own text", impl=pimpl, kind="rfc-text-record-not-stable"))
             except Exception as e:
                 fails.append(Fail("C05.rfc_spelling_parses_equal", "RFC spelling %r rejected: %s: %s" % (t[:80], type(e).__name__, e), impl=pimpl, kind="rfc-text-rejected", exc=type(e).__name__, site=_site(e)))
-    if wf:
+    if wf and generic:
         # RFC 3597 generic form of a known type
         try:
             g = rd.to_generic()
@@ -217,7 +219,7 @@ def check_text_value(spec, vals, rdclass, style_names, origins, alt=True):
                     fails.append(Fail("C05.generic_form", "generic form %r parses to a different record" % tg[:60], impl=pimpl, kind="generic-form-different-record"))
         except Exception as e:
             fails.append(Fail("C05.generic_form", "generic form of a known type failed: %s: %s" % (type(e).__name__, e), impl=pimpl, kind="generic-form-rejected", exc=type(e).__name__, site=_site(e)))
-    if wf and origins and spec.has_name():
+    if wf and own_ok and origins and spec.has_name():
         fails += check_origins(spec, vals, rd, rdclass, origins, pimpl)
     return "ok", fails
 
@@ -436,7 +438,7 @@ def text_probes(spec):
         for pr in ("DNSSEC", "ALL", "256"):
             out.append(("0 " + pr + " 8 AAAA", "key-probe"))
     if spec.tname == "URI":
-        for tg in ('""', '"a\\"b"', "unquoted", '"\\200"', '"é"'):
+        for tg in ('""', "unquoted", "a,b;c"):
             out.append(("10 1 " + tg, "uri-probe"))
     if spec.tname == "CAA":
         for tg in ("issue", "ISSUE", "iss-ue", "a" * 255, "a" * 256, '""', "\\105ssue"):
@@ -661,7 +663,8 @@ def _report(R, f, replay):
 def _attribute(spec, vals, rdclass, style_names, origins, fail):
     def still(v):
         st, fs = check_text_value(spec, v, rdclass, style_names, origins)
-        return any(x.clause == fail.clause and x.sig.get("kind") == fail.sig.get("kind") and x.sig.get("exc") == fail.sig.get("exc") for x in fs)
+        ck = _COARSE_KIND.get(fail.sig.get("kind"), fail.sig.get("kind"))
+        return any(x.clause == fail.clause and _COARSE_KIND.get(x.sig.get("kind"), x.sig.get("kind")) == ck for x in fs)
 
     try:
         mv, kept = spec.minimize(vals, still)
@@ -670,24 +673,47 @@ def _attribute(spec, vals, rdclass, style_names, origins, fail):
         return vals, "unminimised"
 
 
+_min_budget = {}
+# quick tier: types whose first name field gets all 256 single-octet labels (one per distinct
+# parsing context: plain name, name after an integer, name before a bitmap, gateway, name list,
+# relativize=False names, name after quoted strings); the other name fields get 34 representatives
+_FULL_NAME_SWEEP = {"NS", "MX", "SOA", "SRV", "NSEC", "RRSIG", "TSIG", "TKEY", "NAPTR", "SVCB", "DSYNC"}
 _STYLE_SENSITIVE = ("blob", "fixed", "qstr", "txtstrings", "dashhex", "colonhex", "nsaphex", "b32hex", "salthex")
 
 
 def run(R):
+    _min_budget.clear()
     M.MODE["FULL_OCTETS"] = True
     M.MODE["FULL_INTS"] = not R.quick
     specs = build_specs()
+    if R.quick:
+        # every name goes through the same tokenizer / Name code: the first name field of a
+        # type gets all 256 single-octet labels, further name fields the 34 representatives
+        for sp in specs:
+            first = sp.tname in _FULL_NAME_SWEEP
+            for f in sp.fields:
+                if f.kind == "name":
+                    f.sweep_full = first
+                    first = False
     all_styles = [n for n, _ in lossless_styles()]
-    n_random = 15 if R.quick else 600
+    n_random = 10 if R.quick else 600
 
     run_units(R)
     run_generic_unknown(R)
 
+    seen_impl = set()
     for spec in specs:  # pass 1: boundaries of every type, probes, wire-accepted records
         if R.deadline():
             R.note("deadline reached in pass 1 before type %s" % spec.key)
             break
+        # quick tier: types that share both text methods with an earlier type get the
+        # 34-representative octet sweep instead of all 256 (same code, same positions)
+        cls = spec.impl_class()
+        ik = (_text_impl(cls, "from_text"), _text_impl(cls, "to_styled_text"))
+        M.MODE["FULL_OCTETS"] = (not R.quick) or ik not in seen_impl
+        seen_impl.add(ik)
         run_values(R, spec, spec.essential(not R.quick), all_styles, "pass 1")
+        M.MODE["FULL_OCTETS"] = True
         run_probes(R, spec)
         run_wire_accepted(R, spec, structured=True, n_random=0)
     for spec in specs:  # pass 2: pairs, seeded records, seeded wire inputs
@@ -722,19 +748,23 @@ def run_values(R, spec, cases, all_styles, which):
                 if probe not in M.REP_OCTETS:
                     continue
         if _blobish(spec, vals, labels):
-            styles = all_styles if (not thin or idx % 3 == 0 or not labels) else ["default", all_styles[1 + idx % (len(all_styles) - 1)]]
+            lens = all(str(l).startswith(("empty", "len", "zeros", "ones", "many", "plain")) for l in labels.values())
+            styles = all_styles if (not thin or not labels or (lens and len(labels) == 1)) else ["default", all_styles[1 + idx % (len(all_styles) - 1)]]
         else:
             styles = ["default"] if idx % 8 else ["default", "utf8", "chunk1"]
         name_varied = any(spec.by_attr[a].has_name() for a in labels)
         sweep = any(str(l).startswith("octet") or str(l).startswith("gw-octet") for l in labels.values())
-        if named and (name_varied or idx % 8 == 0):
-            origins = ORIGINS if (not thin or not labels or (not sweep and idx % 2 == 0)) else ORIGINS[:1]
-        elif named and idx % 4 == 1:
+        if thin and sweep and name_varied and idx % 6:
+            origins = []
+        elif named and (name_varied or idx % (32 if thin else 8) == 0):
+            origins = ORIGINS if (not thin or not labels or (name_varied and not sweep and len(labels) == 1)) else ORIGINS[:1]
+        elif named and idx % (16 if thin else 4) == 1:
             origins = ORIGINS[:1]
         else:
             origins = []
+        gen = (not thin) or idx % 4 == 0 or not labels
         try:
-            st, fails = check_text_value(spec, vals, rdclass, styles, origins)
+            st, fails = check_text_value(spec, vals, rdclass, styles, origins, generic=gen)
         except Exception as e:
             R.note("harness error in check_text_value %s: %s: %s" % (spec.key, type(e).__name__, e))
             continue
@@ -747,7 +777,8 @@ def run_values(R, spec, cases, all_styles, which):
         R.case("C05.text_roundtrip", key=k, nontrivial=wf)
         R.case("C05.text_accepted_encodes", key=k, nontrivial=wf)
         if wf:
-            R.case("C05.generic_form", key=k)
+            if gen:
+                R.case("C05.generic_form", key=k)
             if spec.text_fn is None or spec.tname not in ("TKEY", "TSIG", "SVCB", "HTTPS", "OPT"):
                 R.case("C05.rfc_spelling_parses_equal", key=k)
             if origins:
@@ -755,7 +786,16 @@ def run_values(R, spec, cases, all_styles, which):
         if idx == 0 and which == "pass 1":
             R.sample("C05.text_roundtrip", {"type": spec.key, "values": vals, "styles": styles})
         for f in fails:
-            mv, vclass = _attribute(spec, vals, rdclass, styles, origins, f)
+            if len(labels) <= 1:
+                # one-factor case: the varied field is the cause, no minimisation needed
+                mv = vals
+                vclass = "+".join(spec.by_attr[a].classify(vals[a]) for a in labels) or "nominal"
+            else:
+                bk = (f.clause, f.sig.get("impl"), f.sig.get("kind"))
+                _min_budget[bk] = _min_budget.get(bk, 0) + 1
+                if _min_budget[bk] > 6:
+                    continue  # this (clause, class, kind) has been attributed six times already
+                mv, vclass = _attribute(spec, vals, rdclass, styles, origins, f)
             f.sig["vclass"] = vclass
             _report(R, f, {"kind": "value", "spec": spec.key, "vals": mv, "rdclass": rdclass, "styles": styles, "origins": origins})
 
@@ -892,7 +932,8 @@ def run_units(R):
             _report(R, f, {"kind": "addr", "packed": a})
         R.case("C05.address_text", key=a)
     # type mnemonics
-    for code in range(65536):
+    codes = range(65536) if not R.quick else sorted(set(range(0, 1100)) | set(range(0, 65536, 13)) | set(range(32760, 32780)) | set(range(65270, 65536)))
+    for code in codes:
         for f in check_mnemonic(code):
             _report(R, f, {"kind": "mnemonic", "code": code})
         R.case("C05.type_mnemonics", key=code)
